@@ -10,6 +10,11 @@ exactly equal floats across thresholds), compiled value / evaluate (tolerance ac
 against the reference interpreter), solve results.  Base terms: every unary function, every
 vector / matrix node, parameters.  No RecursionError may escape for the accumulations.
 
+History dimension: the accumulation is also built while `.degree` / `.is_linear()` is read on the base
+terms and on intermediate prefixes (the `_degree` slot caches, "non-polynomial" stored as -1) and, for
+solve, after the base term was used in an earlier question; degree / is_linear / LP-vs-NLP route /
+solve result must equal those of a fresh never-queried build and of the balanced / vectorised builds.
+
 Tie to the Lean model (n ≤ 900): variables at both thresholds, gradient with the switch at both
 thresholds (structural), the three depth estimates, compiled IR + which builder ran.
 """
@@ -568,6 +573,24 @@ def run(ctx) -> core.Report:
     pr = probe_vectorised_degree()
     if pr is not None:
         fails.append(pr)
+    # ---- history: degree questions asked while the accumulation is being built
+    for fa, fb, k, op, n, fseed, where, thr in history_plan(rng, thorough):
+        r = history_case(fa, fb, k, op, n, fseed, where, thr)
+        rep.histogram["history:degree"] = rep.histogram.get("history:degree", 0) + 1
+        if r is not None:
+            fails.append(r)
+        else:
+            rep.nontrivial.add(("history", fa, fb, k, op, n, tuple(sorted(where)), thr))
+    hs_ns = [399, 400, 401, 450, 900] if thorough else [400, 450]
+    for i, kind in enumerate(SOLVE_BASES):
+        for n in (hs_ns if thorough else [hs_ns[i % 2]]):
+            for thr in ([None, 3] if thorough else [[None, 3][(i + ctx["seed"]) % 2]]):
+                r = history_solve_case(kind, n, thr, "solve" if (i + n) % 2 else True)
+                rep.histogram["history:solve"] = rep.histogram.get("history:solve", 0) + 4
+                if r is not None:
+                    fails.append(r)
+                else:
+                    rep.nontrivial.add(("history-solve", kind, n, thr))
     # ---- solve results: the same least-squares objective built three ways
     solve_ns = [2, 399, 400, 401, 900] if thorough else [2, 400, 401]
     for n in solve_ns:
@@ -591,6 +614,218 @@ def run(ctx) -> core.Report:
             rep.histogram["builder:" + b] = rep.histogram.get("builder:" + b, 0) + 1
     rep.nontrivial = {hash(x) for x in rep.nontrivial}
     return rep
+
+
+
+# ----------------------------------------------------------------------------- history (cached degree slots)
+
+NONPOLY = ["sq", "pow"] + ["un:" + op for op in gen.UNARY if op != "neg"] + \
+          ["vec:l2", "vec:l1", "vec:us:sin", "vec:us:exp", "vec:fro", "vec:es", "vec:msv", "vec:mse"]
+POLY = ["var", "lin", "param", "const", "un:neg", "vec:lc", "vec:vs", "vec:dot", "vec:qf", "vec:ps"]
+
+
+def hist_terms(famA, famB, k, op, n, fseed):
+    """fresh objects on every call (same structure): k terms of family A, then n-k terms of family B"""
+    rng = core.Rng(fseed)
+    U = gen.Universe(rng)
+    fams, _ = families(U, rng)
+    ts = []
+    for i in range(n):
+        t, _ns = (fams[famA] if i < k else fams[famB])(i)
+        ts.append(term_for(op, t))
+    return ts
+
+
+def query(e, i):
+    """one of the reads that populate the `_degree` slot"""
+    if i % 2 == 0:
+        return e.degree
+    return e.is_linear()
+
+
+def build_left_queried(op, ts, k, where):
+    """the term-by-term accumulation with degree questions asked along the way:
+    where ∋ 'base' → every base term before it is added; 'prefix' → the running prefix after the first
+    1, 2, k, k+1 terms, around 399/400/401 and in the middle; returns (expr, number of questions)"""
+    n = len(ts)
+    marks = {1, 2, k, k + 1, 398, 399, 400, 401, n // 2, n - 1} if "prefix" in where else set()
+    asked = 0
+    if "base" in where:
+        query(ts[0], 0); asked += 1
+    acc = ts[0]
+    if 1 in marks:
+        query(acc, 1); asked += 1
+    for i, t in enumerate(ts[1:], 2):
+        if "base" in where and (i <= k + 2 or i % 7 == 0):
+            query(t, i); asked += 1
+        acc = apply(op, acc, t)
+        if i in marks:
+            query(acc, i + 1); asked += 1
+    return acc, asked
+
+
+def read_degree(e):
+    """(degree, is_linear) recomputed on the root (its own slot reset; the slots below stay as they are)"""
+    e._degree = None
+    d, err = guarded(lambda: e.degree)
+    if err is not None:
+        return ("raise", err)
+    e._degree = None
+    l, err = guarded(lambda: e.is_linear())
+    if err is not None:
+        return ("raise", err)
+    return (d, l)
+
+
+def history_case(famA, famB, k, op, n, fseed, where, thr):
+    """None = holds, else a failure dict"""
+    base = {"family": "history", "famA": famA, "famB": famB, "k": k, "op": op, "n": n, "seed": fseed,
+            "where": sorted(where), "thr": thr}
+    with Thresholds(thr):
+        q, asked = build_left_queried(op, hist_terms(famA, famB, k, op, n, fseed), k, where)
+        got_q = read_degree(q)
+    res = {"queried-left": got_q}
+    for sname, t2 in (("default", None), ("iter", 0)):
+        with Thresholds(t2):
+            fresh = hist_terms(famA, famB, k, op, n, fseed)
+            res[f"fresh-left/{sname}"] = read_degree(build_left(op, fresh))
+            res[f"fresh-balanced/{sname}"] = read_degree(build_balanced(op, hist_terms(famA, famB, k, op, n, fseed)))
+        # the queried objects again, other threshold: the slots are still populated
+        with Thresholds(t2):
+            res[f"queried-left/{sname}"] = read_degree(q)
+    # a balanced build over *queried* base terms
+    with Thresholds(thr):
+        ts = hist_terms(famA, famB, k, op, n, fseed)
+        for i, t in enumerate(ts[: k + 3]):
+            query(t, i)
+        res["balanced-over-queried-terms"] = read_degree(build_balanced(op, ts))
+        bv = build_vector(op, ts)
+        bvf = build_vector(op, hist_terms(famA, famB, k, op, n, fseed))
+        if bv is not None:
+            rv, rf = read_degree(bv), read_degree(bvf)
+            if rv != rf:
+                return dict(base, what="degree / is_linear of the vectorised build depends on earlier degree questions",
+                            got=rv, want=rf)
+    want = res["fresh-left/default"]
+    for nm, got in res.items():
+        if got != want:
+            return dict(base, what=f"degree / is_linear differs: {nm} vs a fresh never-queried accumulation",
+                        got=got, want=want, all={a: str(b) for a, b in res.items()}, questions=asked)
+    return None
+
+
+class LinprogSpy:
+    """counts calls of scipy.optimize.linprog (lp_solver imports it at call time): the LP-vs-NLP route"""
+
+    def __enter__(self):
+        import scipy.optimize as so
+
+        self.so, self.orig, self.calls = so, so.linprog, 0
+
+        def spy(*a, **kw):
+            self.calls += 1
+            return self.orig(*a, **kw)
+
+        so.linprog = spy
+        return self
+
+    def __exit__(self, *a):
+        self.so.linprog = self.orig
+
+
+SOLVE_BASES = ["exp3", "cosh", "sqrt", "quartic", "lin"]
+
+
+def solve_objective(kind, n, queried, how):
+    """objective = base(x0) + Σ_{i<n} y_{i mod 3}/4 with x0 ∈ [-1,1], y ∈ [0,1]; fresh objects on every call.
+    `queried`: ask base.is_linear() / .degree (and solve the base alone) before accumulating"""
+    from optyx import Variable, Problem
+    from optyx.core.vectors import VectorExpression
+
+    x0 = Variable("x0", lb=-1.0, ub=1.0)
+    ys = [Variable(f"y{j}", lb=0.0, ub=1.0) for j in range(3)]
+    if kind == "exp3":
+        t, xopt = gen.unary("exp", x0) * 3.0, -1.0
+    elif kind == "cosh":
+        t, xopt = gen.unary("cosh", x0 - 0.25), 0.25
+    elif kind == "sqrt":
+        t, xopt = gen.unary("sqrt", (x0 + 0.5) * (x0 + 0.5) + 1.0), -0.5
+    elif kind == "quartic":
+        t, xopt = (x0 - 0.5) ** 4 + (x0 - 0.5) ** 2, 0.5
+    else:
+        t, xopt = x0 * 2.0 + 1.0, -1.0
+    if queried:
+        t.is_linear()
+        _ = t.degree
+        if queried == "solve":
+            guarded(lambda: Problem().minimize(t).solve())
+    terms = [t] + [ys[i % 3] * 0.25 for i in range(n)]
+    if how == "left":
+        obj = terms[0]
+        for i, u in enumerate(terms[1:], 1):
+            obj = obj + u
+            if queried and i in (1, 2, 399, 400, n // 2):
+                obj.is_linear()
+    elif how == "balanced":
+        obj = build_balanced("+", terms)
+    else:
+        obj = VectorExpression(terms).sum()
+    return obj, xopt
+
+
+def history_solve_case(kind, n, thr, queried):
+    base = {"family": "history-solve", "kind": kind, "n": n, "thr": thr, "queried": queried}
+    from optyx import Problem
+
+    outs = {}
+    for how, qd in (("left", queried), ("left", False), ("balanced", False), ("vector", False)):
+        with Thresholds(thr if qd else None):
+            obj, xopt = solve_objective(kind, n, qd, how)
+            with LinprogSpy() as spy:
+                sol, err = guarded(lambda: Problem().minimize(obj).solve())
+            if err is not None:
+                return dict(base, what=f"solve raised {err} on the {how} build (queried={qd})")
+            outs[(how, bool(qd))] = ("lp" if spy.calls else "nlp", str(sol.status), sol.objective_value, dict(sol.values))
+    ref = outs[("left", False)]
+    for key, (route, status, objv, vals) in outs.items():
+        nm = f"{key[0]} build ({'queried' if key[1] else 'fresh'})"
+        # known finding F26b: a *linear* vectorised build is routed to the NLP solver
+        if route != ref[0] and not (key[0] == "vector" and kind == "lin"):
+            return dict(base, what=f"LP-vs-NLP route of the {nm} differs from the fresh accumulation", got=route, want=ref[0])
+        if status != ref[1]:
+            return dict(base, what=f"solve status of the {nm} differs from the fresh accumulation", got=status, want=ref[1])
+        if objv is None or abs(objv - ref[2]) > 2e-3 * (1 + abs(ref[2])):
+            return dict(base, what=f"objective value of the {nm} differs from the fresh accumulation", got=objv, want=ref[2])
+        if abs(vals.get("x0", 9e9) - xopt) > 2e-2:
+            return dict(base, what=f"solution of the {nm} is not the optimum", got=vals.get("x0"), want=xopt)
+        for j in range(3):
+            if n > j and abs(vals.get(f"y{j}", 9e9)) > 2e-2:
+                return dict(base, what=f"solution of the {nm} is not the optimum", got=vals.get(f"y{j}"), want=0.0, var=f"y{j}")
+    return None
+
+
+def history_plan(rng, thorough):
+    """(famA, famB, k, op, n, seed, where, thr): non-polynomial head + polynomial tail (the case a stale
+    'non-polynomial' marker would turn linear), and the three other head/tail combinations"""
+    out = []
+    sizes = [399, 400, 401, 450, 900] if thorough else [400, 401, 450]
+    heads = NONPOLY if thorough else rng.sample(NONPOLY, 9)
+    for i, fa in enumerate(heads):
+        for n in (sizes if thorough else [sizes[i % len(sizes)]]):
+            fb = rng.choice(["var", "lin", "param", "vec:lc", "vec:vs"])
+            k = rng.choice([1, 1, 2, 5])
+            where = rng.choice([{"base"}, {"prefix"}, {"base", "prefix"}])
+            thr = rng.choice([None, 3, 0])
+            out.append((fa, fb, k, rng.choice(["+", "-"]), n, rng.randint(0, 2 ** 31 - 1), where, thr))
+    for fa, fb in ([(a, b) for a in POLY for b in (NONPOLY[:4] if not thorough else NONPOLY)][:: (1 if thorough else 7)]
+                   + [(a, b) for a in POLY[:4] for b in POLY[4:8]][:: (1 if thorough else 4)]
+                   + [(rng.choice(NONPOLY), rng.choice(NONPOLY)) for _ in range(8 if thorough else 2)]):
+        out.append((fa, fb, rng.choice([1, 3, 200]), rng.choice(["+", "-", "*", "/"]), rng.choice(sizes),
+                    rng.randint(0, 2 ** 31 - 1), {"base", "prefix"}, rng.choice([None, 3])))
+    # below the threshold with the thresholds lowered
+    for fa in rng.sample(NONPOLY, 6 if thorough else 3):
+        out.append((fa, "var", 1, "+", rng.choice([12, 48]), rng.randint(0, 2 ** 31 - 1), {"base", "prefix"}, rng.choice([0, 3])))
+    return out
 
 
 def probe_vectorised_degree():
@@ -742,6 +977,15 @@ def replay(payload) -> bool:
     if f.get("family") == "probe":
         r = probe_vectorised_degree()
         print("probe:", r)
+        return r is None
+    if f.get("family") == "history":
+        r = history_case(f["famA"], f["famB"], int(f["k"]), f["op"], int(f["n"]), int(f["seed"]), set(f["where"]),
+                         None if f["thr"] in (None, "None") else int(f["thr"]))
+        print("history_case:", r)
+        return r is None
+    if f.get("family") == "history-solve":
+        r = history_solve_case(f["kind"], int(f["n"]), None if f["thr"] in (None, "None") else int(f["thr"]), f["queried"])
+        print("history_solve_case:", r)
         return r is None
     if f.get("family") == "least-squares":
         r = solve_case(int(f["n"]), int(f.get("seed", 0)))
